@@ -782,8 +782,13 @@ func (g *Gen) val0(v ssa.Value, st *State) Term {
 			}
 		}
 	case *ssa.Function:
-		t = g.w.fresh("fn", "Int")
-		g.w.assume(fmt.Sprintf("(not (= %s 0))", t.S))
+		if x.Parent() == nil && x.Pkg != nil {
+			// a declared function used as a value: one fixed non-nil reference per function (distinct from the others)
+			t = g.w.globalRef("F:" + x.String())
+		} else {
+			t = g.w.fresh("fn", "Int")
+			g.w.assume(fmt.Sprintf("(not (= %s 0))", t.S))
+		}
 	case *ssa.FieldAddr, *ssa.IndexAddr:
 		// an address used as a VALUE (stored, passed on): an opaque non-nil reference
 		t = g.w.fresh("adr", "Int")
@@ -1580,6 +1585,13 @@ func (g *Gen) call(c *ssa.CallCommon, res ssa.Value, st *State, pos token.Pos) {
 					env.bound[fmt.Sprintf("arg%d", i)] = g.val(a, st)
 					env.boundTypes[fmt.Sprintf("arg%d", i)] = a.Type()
 				}
+				if !c.IsInvoke() {
+					if _, isFn := c.Value.(*ssa.Function); !isFn {
+						// a call through a function VALUE: `callee` names that value
+						env.bound["callee"] = g.val(c.Value, st)
+						env.boundTypes["callee"] = c.Value.Type()
+					}
+				}
 				t, err := env.evalBool(h.Expr)
 				if err != nil {
 					g.note("spec error in before-clause [%s]: %v", h.Label, err)
@@ -2143,6 +2155,21 @@ func (g *Gen) callWithContract(callee *ssa.Function, ctr *Contract, args []Term,
 		}
 		g.addOb("pre", fmt.Sprintf("call_%s@%d/%s", callee.Name(), line, r.Label), pos, st, t.S)
 	}
+	if callee == g.f && g.inlining == 0 {
+		// direct recursion: the declared variant is non-negative on entry and strictly smaller for this call
+		if ctr.Decreases == nil {
+			g.addOb("variant", fmt.Sprintf("recursive_call_%s@%d/no_decreases_clause", callee.Name(), line), pos, st, "false")
+		} else {
+			cur, err1 := env.eval(ctr.Decreases)
+			entryEnv := &SpecEnv{g: g, st: g.entry, old: g.entry, fn: g.f, argOverride: map[string]Term{}, bound: map[string]Term{}, inOld: true}
+			ent, err2 := entryEnv.eval(ctr.Decreases)
+			if err1 != nil || err2 != nil {
+				g.note("spec error in %s decreases: %v %v", callee.Name(), err1, err2)
+			} else {
+				g.addOb("variant", fmt.Sprintf("recursive_call_%s@%d/decreases", callee.Name(), line), pos, st, fmt.Sprintf("(and (>= %s 0) (< %s %s))", ent.T.S, cur.T.S, ent.T.S))
+			}
+		}
+	}
 	if ctr.Pure {
 		if callee.Signature.Results().Len() > 1 {
 			for i := 0; i < callee.Signature.Results().Len(); i++ {
@@ -2209,6 +2236,51 @@ func (g *Gen) callWithContract(callee *ssa.Function, ctr *Contract, args []Term,
 			continue
 		}
 		w.assume(fmt.Sprintf("(=> %s %s)", st.pc, t.S))
+	}
+	if inUnit(callee) && callee.Blocks != nil && (len(stateInvariants) > 0 || len(globalInvariants) > 0) {
+		// the callee is verified in this unit: it re-establishes the unit's invariants at every exit
+		g.assumeUnitInvariants(st, g.f)
+	}
+}
+
+// assumeUnitInvariants states the unit's invariants (object invariants with binders, invariants over package state) in
+// state st: at the entry of every function of the unit, and again after a call to a function of the unit (which proves
+// them at its exits).
+func (g *Gen) assumeUnitInvariants(st *State, f *ssa.Function) {
+	w := g.w
+	for _, si := range stateInvariants {
+		env := &SpecEnv{g: g, st: st, old: st, fn: f, argOverride: map[string]Term{}, bound: map[string]Term{}, boundTypes: map[string]types.Type{}}
+		saved := w.binders
+		ok := true
+		for _, b := range si.Binders {
+			bt, err := env.resolveType(b.Typ)
+			if err != nil {
+				g.note("spec error in invariant binder: %v", err)
+				ok = false
+				break
+			}
+			w.n++
+			name := fmt.Sprintf("%s_inv%d", b.Name, w.n)
+			env.bound[b.Name] = T(name, w.sortOf(bt))
+			env.boundTypes[b.Name] = bt
+			w.binders = append(w.binders, binderT{name, w.sortOf(bt)})
+		}
+		if ok {
+			if t, err := env.evalBool(si.Expr); err == nil {
+				w.assume(t.S)
+			} else {
+				g.note("spec error in invariant: %v", err)
+			}
+		}
+		w.binders = saved
+	}
+	for _, gi := range globalInvariants {
+		env := &SpecEnv{g: g, st: st, old: st, fn: f, argOverride: map[string]Term{}, bound: map[string]Term{}}
+		if t, err := env.evalBool(gi.Expr); err == nil {
+			w.assume(t.S)
+		} else {
+			g.note("spec error in global invariant: %v", err)
+		}
 	}
 }
 
@@ -2744,7 +2816,7 @@ func (g *Gen) checkEnsures(ret *ssa.Return, st *State) {
 // unit; a function of the unit that changed any heap must re-establish it at each return (exit obligation). Functions that
 // leave every heap as it was get no obligation (it would repeat the assumption).
 func (g *Gen) checkGlobalInvariants(ret *ssa.Return, st *State) {
-	if len(globalInvariants) == 0 || g.entry == nil || g.inlining != 0 {
+	if (len(globalInvariants) == 0 && len(stateInvariants) == 0) || g.entry == nil || g.inlining != 0 {
 		return
 	}
 	changed := false
@@ -2771,6 +2843,29 @@ func (g *Gen) checkGlobalInvariants(ret *ssa.Return, st *State) {
 			continue // reported at entry
 		}
 		g.addObNoAssume("post", "invariant_kept["+gi.Label+"]"+g.retSuffix(ret), pos, st, t.S)
+	}
+	// invariants with binders (facts about every object of a type): proved at the exit for arbitrary values of the binders
+	for k, si := range stateInvariants {
+		env := &SpecEnv{g: g, st: st, old: g.entry, fn: g.f, argOverride: map[string]Term{}, bound: map[string]Term{}, boundTypes: map[string]types.Type{}, role: roleAssert}
+		ok := true
+		for _, b := range si.Binders {
+			bt, err := env.resolveType(b.Typ)
+			if err != nil {
+				ok = false
+				break
+			}
+			c := g.w.freshTyped("any_"+b.Name, bt)
+			env.bound[b.Name] = c
+			env.boundTypes[b.Name] = bt
+		}
+		if !ok {
+			continue
+		}
+		t, err := env.evalBool(si.Expr)
+		if err != nil {
+			continue
+		}
+		g.addObNoAssume("post", fmt.Sprintf("invariant_kept[object_inv%d]%s", k+1, g.retSuffix(ret)), pos, st, t.S)
 	}
 }
 
